@@ -319,9 +319,7 @@ def gen_huge(sc):
     if r < 0.3:
         sc.realloc(h, rng.choice([100, cfg.maxsmall + 1, huge - 5]), fill=False)      # in place
         sc.getsize(h); sc.verify()
-    elif r < 0.5:
-        sc.realloc(h, huge + cfg.page * 3, fill=False)                                 # moves to another huge region
-        sc.verify()
+    # (no MOVING realloc of the huge block: the real pool would memcpy >= 4 GiB, i.e. touch that much memory per case)
     for s in pre[:1] + mid[:1]:
         sc.free(s)
     sc.free(h, sized=rng.random() < 0.5 and None)
